@@ -175,12 +175,12 @@ type driver struct {
 	lingerFrom time.Time
 	lingerIn   int
 	lingered   int
-	workers []*worker
-	byGid   map[uint64]*worker
-	pass    bool
-	foreign map[string]int
-	inner   kvs.Storage
-	key     string
+	workers    []*worker
+	byGid      map[uint64]*worker
+	pass       bool
+	foreign    map[string]int
+	inner      kvs.Storage
+	key        string
 
 	provs    []dist.LockProvider
 	provDown []bool
